@@ -255,6 +255,11 @@ def run(m, rep, tier):
     else:
         c03.check_resize_order(m, f, e6)
 
+    # ---- E9: enumeration keeps no state outside its own frame -----------------------------------------
+    from .util import check_no_mutable_globals
+    e9 = rep.rule('E9', 'hash.c defines no writable static object (an enumeration started from inside a callback does not disturb the outer one)', floor=1)
+    check_no_mutable_globals(m, e9, ('hash',))
+
 
 def _element_kind(f, v, depth=0, seen=None):
     """'element' when v is computed from a pointer by subtracting / adding a loaded offset, 'node' when it is a chain link
